@@ -2,6 +2,7 @@
  * scheduler, the descriptor pools, find_active_shepherd and the blocking subsystem is logged; plus the M1 probe of the
  * static qthread_thread_new / qthread_thread_free pair. */
 #define C04_IPOSE_QTHREAD 1
+#define C04_TU 0
 #include "c04_ipose.h"
 #include "qthread.c"
 #include <stdio.h>
